@@ -364,6 +364,7 @@ type round struct {
 }
 
 type worker struct {
+	fixedBody []byte // when set, putObject uploads exactly these bytes (repeated identical uploads)
 	batchVids map[string]string // version ids named by the entries of the batch delete being sent (key -> id)
 	rd        *round
 	w         int
@@ -493,6 +494,9 @@ func (w *worker) expect(rec *reqRec, kind, bucket, key string, size int64, sizeS
 
 func (w *worker) putObject(cl *s3c.Client, variant, bucket, key string, hdr s3c.H) ([]byte, *s3c.Resp) {
 	body := w.body()
+	if w.fixedBody != nil {
+		body = w.fixedBody
+	}
 	r, rec := w.do("put", variant, cl, &s3c.Req{Method: "PUT", Path: s3c.ObjPath(bucket, key), Body: body, Header: hdr}, bucket, []string{key})
 	if r.OK() {
 		w.expect(rec, "put", bucket, key, int64(len(body)), true, r.Header.Get("Etag"), r.Header.Get("X-Amz-Version-Id"))
@@ -627,6 +631,15 @@ func (w *worker) scenario(s slot) {
 	case "put":
 		switch v {
 		case "ok":
+			if w.rng.Intn(4) == 0 {
+				// the same change twice: same key, same data, one request right after the other - two changes, two events
+				key := w.newKey(false)
+				w.fixedBody = w.body()
+				w.putObject(w.root, v, b, key, nil)
+				w.putObject(w.root, v, b, key, nil)
+				w.fixedBody = nil
+				return
+			}
 			w.putObject(w.root, v, b, w.newKey(w.nkey < 14 && w.rng.Intn(3) == 0), nil)
 		case "missing-bucket":
 			w.putObject(w.root, v, m, w.newKey(false), nil)
@@ -743,7 +756,11 @@ func (w *worker) scenario(s slot) {
 		}
 		switch v {
 		case "ok":
-			w.putTagging(w.root, v, b, key, w.tags())
+			t := w.tags()
+			w.putTagging(w.root, v, b, key, t)
+			if w.rng.Intn(3) == 0 {
+				w.putTagging(w.root, v, b, key, t) // the same tag set once more: a second change, a second event
+			}
 		case "malformed-xml":
 			w.putTagging(w.root, v, b, key, []byte(`<Tagging><TagSet><Tag><Key>a</Key><Value>b</Value></Tag></TagSet>`))
 		case "denied":
@@ -1068,6 +1085,19 @@ func (rd *round) judge(workers []*worker, docs [][]byte) judgeStats {
 	// without its record this is a record of the wrong type, otherwise a duplicate
 	for _, d := range dups {
 		var x *expEvent
+		// the same change made twice (same key, same kind of request) expects two records of the same type: the
+		// second record satisfies the second expectation
+		same := false
+		for _, cand := range byPair[pair{d.x.Bucket, d.x.Key}] {
+			if cand.matched == 0 && cand.Kind == d.x.Kind && contains(cand.Names, d.rec.EventName) {
+				x, same = cand, true
+				break
+			}
+		}
+		if same {
+			x.matched++
+			continue
+		}
 		for _, cand := range byPair[pair{d.x.Bucket, d.x.Key}] {
 			if cand.matched == 0 && !cand.Optional {
 				x = cand
@@ -1221,6 +1251,21 @@ func runRound(c *ev.Ctx, cfg roundCfg, slots []slot) {
 				return
 			}
 		}
+	}
+	// prelude, before any other client starts: one client alone repeats a change right away - the same upload twice,
+	// the same tag set twice, the same delete twice. Two acknowledged changes are two events, however alike they are.
+	if !cfg.race && len(workers) > 0 {
+		w := workers[0]
+		key := w.newKey(false)
+		w.fixedBody = w.body()
+		w.putObject(w.root, "ok", w.bucket, key, nil)
+		w.putObject(w.root, "ok", w.bucket, key, nil)
+		w.fixedBody = nil
+		t := w.tags()
+		w.putTagging(w.root, "ok", w.bucket, key, t)
+		w.putTagging(w.root, "ok", w.bucket, key, t)
+		w.deleteTagging(w.root, "ok", w.bucket, key)
+		w.deleteTagging(w.root, "ok", w.bucket, key)
 	}
 	var wg sync.WaitGroup
 	for i, w := range workers {
